@@ -29,6 +29,7 @@ Section EvInd.
   Hypothesis HAdjLeaf : forall c e, P e -> P (AdjLeaf c e).
   Hypothesis HAdjAllow : forall pe e, P pe -> P e -> P (AdjAllow pe e).
   Hypothesis HAdjLevel : forall pe e f, P pe -> P e -> P (AdjLevel pe e f).
+  Hypothesis HByConsP : forall e a pre, P e -> P pre -> P (ByConsP e a pre).
 
   Fixpoint ev_ind' (t : ev) : P t :=
     match t with
@@ -63,6 +64,7 @@ Section EvInd.
     | AdjLeaf c e => HAdjLeaf c e (ev_ind' e)
     | AdjAllow pe e => HAdjAllow pe e (ev_ind' pe) (ev_ind' e)
     | AdjLevel pe e f => HAdjLevel pe e f (ev_ind' pe) (ev_ind' e)
+    | ByConsP e a pre => HByConsP e a pre (ev_ind' e) (ev_ind' pre)
     end.
 End EvInd.
 
@@ -239,6 +241,7 @@ Proof.
   - rewrite Ha. destruct v; reflexivity.
   - rewrite Ha. apply orb_true_r.
   - rewrite forallb_forall in *. rewrite Forall_forall in H. intros x Hx. apply H; auto.
+  - destruct (takes t2 KSeats && negb (is_none v)); auto.
 Qed.
 
 Lemma seated_seat_any : forall t, seated t = true -> seat_any t = true.
@@ -359,6 +362,40 @@ Section Compose.
     cbn [run_impl run_spec]. rewrite bind_style_constit, accept_constit.
     destruct pl, lv, cl; try reflexivity. cbn [rbind]. kw_simpl'.
     destruct a as [|n|d]; [destruct s as [[| | | | |]|]|..]; kw_simpl'; district_loop IH Hs Hpm Hip Hany.
+  Qed.
+
+  (* ByConstituency with a preselector: the national totals through the preselector, every constituency on its votes
+     restricted to the preselected candidates *)
+  Ltac district_loop_p IH Hs Hpm Hip Hany :=
+    apply rbind_ext; intro dvs; f_equal;
+    apply map_res_ext; intro kv;
+    apply rbind_ext; intro ad; apply rbind_ext; intro pd; apply rbind_ext; intro md;
+    match goal with |- context [is_zero ?x] => destruct (is_zero x) end; [reflexivity|];
+    rewrite subset_s_eq; apply rbind_ext; intro sv;
+    f_equal; rewrite Hip;
+    match goal with |- context [takes ?e KPrev] => destruct (takes e KPrev) eqn:Hp end;
+    [apply agree_npm; auto | apply agree_n; auto].
+
+  Lemma case_byconsp : forall e a pre, agree e -> agree pre -> takes e KSeats = true ->
+    (takes e KPrev = true -> takes e KMax = true) -> acc_prev e = takes e KPrev -> acc_seats pre = takes pre KSeats ->
+    (forall v, seat_ok e v = true) -> agree (ByConsP e a pre).
+  Proof.
+    intros e a pre IH IHp Hs Hpm Hip Hips Hany st [s p m pl lv cl] votes Hf Hsf.
+    cbn [run_impl run_spec]. rewrite bind_style_constit, accept_constit.
+    destruct pl, lv, cl; try reflexivity. cbn [rbind]. kw_simpl'.
+    unfold seat_fits, seat_of in Hsf; cbn [seat_ok k_seats] in Hsf.
+    change (match s with Some v => v | None => VNone end) with (odef s VNone) in Hsf.
+    assert (Hpre : forall nat_votes,
+              (if acc_seats pre && negb (is_none (odef s VNone)) then RI pre nat_votes (call_n (odef s VNone))
+               else RI pre nat_votes call0)
+              = RS pre nat_votes (kset kw_none KSeats (if takes pre KSeats then given (odef s VNone) else None))).
+    { intro nv. rewrite Hips. unfold given.
+      destruct (takes pre KSeats) eqn:Hts, (is_none (odef s VNone)) eqn:Hn; cbn [andb negb] in *; kw_simpl';
+        first [apply agree_n; auto | apply agree_0; auto]. }
+    destruct a as [|n|d]; [destruct s as [[| | | | |]|]|..]; kw_simpl';
+      apply rbind_ext; intro apportionment; rewrite totals_s_eq; apply rbind_ext; intro nat_votes;
+      cbn [odef] in Hpre; rewrite Hpre; apply rbind_ext; intro preselected;
+      district_loop_p IH Hs Hpm Hip Hany.
   Qed.
 
   Ltac first_part tac :=
@@ -614,7 +651,7 @@ Section Compose.
     - destruct Hw as [[[? ?] Ha] ?]. destruct Hfa. apply case_tiebr; auto. apply seat_any_ok; exact Ha.
     - destruct Hw. apply case_plistc; auto.
     - destruct Hw as [[? ?] Hle]. destruct Hfa.
-      destruct t2 as [l k| | | | | | | | | | | | | | | | | | | |]; try discriminate Hle.
+      destruct t2 as [l k| | | | | | | | | | | | | | | | | | | | |]; try discriminate Hle.
       destruct k; try discriminate Hle. apply case_plisto; auto.
     - apply case_vsys; auto.
     - apply case_unused. rewrite forallb_forall in Hw, Hfa. rewrite Forall_forall in *.
@@ -625,6 +662,8 @@ Section Compose.
       apply case_adjallow; auto; apply seat_any_ok; assumption.
     - destruct Hw as [[[[[[? ?] Ha] ?] ?] Hb] ?]. destruct Hfa.
       apply case_adjlevel; auto; apply seat_any_ok; assumption.
+    - destruct Hw as [[[[? Hpm] Ha] ?] ?]. destruct Hfa as [[[Q1 Q2] ?] ?]. apply eqb_prop in Q1, Q2.
+      apply case_byconsp; auto; [intro Hp; rewrite Hp in Hpm; exact Hpm|apply seat_any_ok; exact Ha].
   Qed.
 
   (* trees in which every apportioner and overall evaluator takes a seat count need no condition on the seat argument *)
